@@ -264,8 +264,14 @@ def judge_c02(part, scn, x):
     common.pcount(part, 'final_states_checked')
     sched.Runtime.current = None
     n = 0
+    final = rt.final_exprs
+    if scn['model'][0] != 'adversarial' and x.out_bytes is not None:
+        # the statement is about the final *output*: read it back (every
+        # position gets its own identity, whatever the run left in memory)
+        from ddsmt import nodeio
+        final = list(nodeio.parse_smtlib(x.out_bytes.decode('utf-8')))
     with common.quiet():
-        props = list(proposals_on(rt.final_exprs))
+        props = list(proposals_on(final))
     for name, nodeid, toks in props:
         n += 1
         ok = accepts(scn, rt, toks)
